@@ -287,7 +287,7 @@ func (c *Case) cpName(ci int) string {
 	return fmt.Sprintf("cp%d", ci)
 }
 
-var instNamePool = []string{"n1", "n10", "n11", "n100", "n2", "x", "xy", "xyz", "node_1_1", "node_1_10", "node_11_1", "a", "ab", "ba", "b"}
+var instNamePool = []string{"n1", "n10", "n11", "n100", "n2", "x", "xy", "xyz", "node_1_1", "node_1_10", "node_11_1", "a", "ab", "ba", "b", "a_b", "b_a"}
 var cpNamePool = []string{"cp10", "cp2", "cp1", "cp0", "z", "a", "m", "proc_b", "proc_a", "cp"}
 
 // Source renders the graph with partition part as a BASM file.
@@ -633,6 +633,17 @@ func genCase(t *rapid.T) Case {
 	c.SinkFirst = rapid.Bool().Draw(t, "sinkfirst")
 	if rapid.Bool().Draw(t, "oddnames") {
 		c.Names = permuteStr(instNamePool, rapid.Permutation(seq(len(instNamePool))).Draw(t, "instnames"))[:ni]
+	}
+	if ni >= 3 && rapid.IntRange(0, 3).Draw(t, "joinedname") == 0 {
+		// an instance whose name is two other instance names joined with an underscore (the composer derives
+		// section names by joining the names of a collapse list with underscores)
+		if c.Names == nil {
+			for i := 0; i < ni; i++ {
+				c.Names = append(c.Names, fmt.Sprintf("n%d", i))
+			}
+		}
+		p := rapid.Permutation(seq(ni)).Draw(t, "joined")
+		c.Names[p[2]] = c.Names[p[0]] + "_" + c.Names[p[1]]
 	}
 	if rapid.Bool().Draw(t, "oddcpnames") {
 		c.CPNames = permuteStr(cpNamePool, rapid.Permutation(seq(len(cpNamePool))).Draw(t, "cpnames"))[:min(ni, len(cpNamePool))]
